@@ -150,7 +150,7 @@ class C13(Prop):
     rule = ("rel-wrap: the failing inputs of the four defects + every sequence of <= 3 items over a 23-item pool with every tie-break "
             "(entries that are prefixes of one another, equal names with each operator, Debian-equal spellings, epochs, '~', qualifier / "
             "architecture / profile variants, substitution variables, empty entries) + C10's systematic fields + random inhabitants of "
-            "RelGrammar.rfield in four whitespace styles with few distinct names, sorted / reversed / shuffled copies, digit runs above "
+            "RelGrammar.rfield in four whitespace styles with few distinct names, sorted / reversed / shuffled copies, fields with 21-70 entries or alternatives (beyond the insertion-sort threshold of slice::sort), digit runs above "
             "i32::MAX; the oracle recomputes the demanded text from the abstract field (own stable sort, own dpkg comparison) and judges "
             "the implementation's record only; rel-wrap-text: regression texts, corpus, every string of length <= 3 (4 thorough) over the "
             "22-symbol relation alphabet, mutated rendered fields (correspondence incl. panic sites; the oracle applies when the text is "
